@@ -9,41 +9,6 @@ from pvrun import Template
 
 PROPERTY = "C04"
 LABELS = ["input_unchanged", "kind_preserved"]
-t_series = tmpl.pick(tmpl.series_case, LABELS)
-t_frame = tmpl.pick(tmpl.frame_case, LABELS)
-t_parse = tmpl.pick(tmpl.parse_case, LABELS)
-t_sidx = tmpl.pick(tmpl.series_index_case, LABELS)
-t_comp = tmpl.pick(tmpl.component_case, LABELS)
-
 
 def templates(tier, seed):
-    ts = []
-    N = 2
-    for kind, cname in (("float", "in_range"), ("float", "ne"), ("int", "ge"), ("str", "str_matches"), ("str", "isin")):
-        for lazy in (False, True):
-            ts.append(Template(f"S/{kind}/{cname}/lazy={int(lazy)}/N={N}", t_series, (kind, cname, N, True, None, lazy)))
-    for arr in (["a", "b"], ["b", "a"], ["a", "b", "x"], ["b"]):
-        for strict in (False, True, "filter"):
-            for lazy in (False, True):
-                ts.append(Template(f"F/{''.join(arr)}/strict={strict}/lazy={int(lazy)}/N={N}", t_frame, (arr, strict, False, N, {"lazy": lazy})))
-    for vc, ic in itertools.product((False, True), repeat=2):
-        for lazy in (False, True):
-            ts.append(Template(f"SI/val_coerce={int(vc)}/idx_coerce={int(ic)}/lazy={int(lazy)}/N={N}", t_sidx, (N, lazy, vc, ic)))
-    for coerce, a_kind in ((None, "float"), ("col", "int"), ("schema", "int")):
-        for default in (False, True):
-            for add_missing, arr in ((False, ["a", "b"]), (True, ["b"]), (False, ["a", "b", "x"])):
-                for strict in (False, "filter"):
-                    for drop in (False, True):
-                        for index in (None, "coerce"):
-                            c = dict(coerce=coerce, a_kind=a_kind, default=default, add_missing=add_missing, strict=strict, drop=drop, index=index)
-                            n_on = sum([coerce is not None, default, add_missing, strict == "filter", drop, index is not None])
-                            if n_on > (2 if tier == "quick" else 6) or (tier == "quick" and n_on == 2 and index and drop):
-                                continue
-                            for lazy in ((False, True) if not drop else (True,)):
-                                cc = dict(c, lazy=lazy, distinct_labels=drop)
-                                tid = "P/" + "".join(arr) + "/" + "/".join(f"{k}={v}" for k, v in cc.items() if k != "distinct_labels")
-                                ts.append(Template(tid, t_parse, (arr, N, cc)))
-    for comp in ("column", "column_coerce", "column_default", "index", "index_coerce", "multiindex", "multiindex_coerce"):
-        for lazy in (False, True):
-            ts.append(Template(f"K/{comp}/lazy={int(lazy)}/N={N}", t_comp, (comp, N, lazy)))
-    return ts
+    return [Template(tid, tmpl.pick(fn, LABELS), args) for tid, fn, args in tmpl.standard_cases(tier)]
